@@ -1437,3 +1437,273 @@ func ruleRaftPredicates(e *Engine, r *Report, which ...string) {
 		}
 	}
 }
+
+// ruleDurableMkdir (C04, C10): the directories handed to the embedded KV
+// store (data dir and, when configured, the separate WAL dir) are created
+// through fileutil.MkdirAll, which fsyncs every parent it creates an entry
+// in; the store itself creates missing directories without making their
+// parent entries durable, so after a power loss the whole WAL directory can
+// be gone.
+func ruleDurableMkdir(e *Engine, r *Report) {
+	open := r.need("internal/logdb/kv/pebble.openPebbleDB")
+	mk := r.need("internal/fileutil.MkdirAll")
+	if open == nil || mk == nil {
+		return
+	}
+	n := 0
+	check := func(at ssa.Instruction, dirVal ssa.Value, what string) {
+		n++
+		pred := func(in ssa.Instruction) bool {
+			c, ok := in.(*ssa.Call)
+			if !ok || !e.CallsTo(c, mk) || len(c.Call.Args) == 0 {
+				return false
+			}
+			return sameSizeExpr(stripConv(c.Call.Args[0]), stripConv(dirVal)) || c.Call.Args[0] == dirVal
+		}
+		ok, _ := e.alwaysPrecededBy(at, pred, 0)
+		r.check(ok, "PAIR-durable-mkdir", what+" in "+fname(open)+" was created with fileutil.MkdirAll", e.ipos(at),
+			"the directory and its parent entries are durable before the store uses it",
+			"the KV store is given a "+what+" that was not created through fileutil.MkdirAll: its directory entry is never fsynced and the log store can vanish after a power loss")
+	}
+	forEachInstr(open, func(in ssa.Instruction) {
+		if st, ok := in.(*ssa.Store); ok {
+			if f, _, ok := fieldOfAddr(st.Addr); ok && f.Name() == "WALDir" {
+				if c, isC := st.Val.(*ssa.Const); isC && c.Value != nil && c.Value.ExactString() == `""` {
+					return
+				}
+				check(in, st.Val, "WAL directory")
+			}
+		}
+		if c, ok := in.(*ssa.Call); ok {
+			if sc := c.Call.StaticCallee(); sc != nil && sc.Name() == "Open" && sc.Pkg != nil && strings.HasSuffix(sc.Pkg.Pkg.Path(), "/pebble") && len(c.Call.Args) > 0 {
+				check(in, c.Call.Args[0], "data directory")
+			}
+		}
+	})
+	r.floor("PAIR-durable-mkdir", n, 2)
+	// MkdirAll really syncs the parents it touches
+	syncDir := e.Func("internal/fileutil.SyncDir")
+	okS := false
+	e.forEachInstrRegion(mk, 2, func(in ssa.Instruction) {
+		if c, ok := in.(*ssa.Call); ok && syncDir != nil && e.CallsTo(c, syncDir) {
+			okS = true
+		}
+	})
+	r.check(okS, "PAIR-durable-mkdir", "fileutil.MkdirAll syncs the parent directories", e.pos(mk.Pos()), "durable mkdir", "fileutil.MkdirAll no longer fsyncs the parent of a directory it creates")
+}
+
+// ruleTanManifestSync (C04, C10): an edit appended to Tan's MANIFEST
+// (registration of a new log file, deletions) is fsynced before logAndApply
+// reports success, whether or not a new manifest file was started.
+func ruleTanManifestSync(e *Engine, r *Report) {
+	la := r.need("(*internal/tan.versionSet).logAndApply")
+	mf := r.needField("internal/tan", "versionSet", "manifestFile")
+	man := r.needField("internal/tan", "versionSet", "manifest")
+	if la == nil || mf == nil || man == nil {
+		return
+	}
+	n := 0
+	for _, fn := range e.regionOf(la, 0) {
+		forEachCall(fn, func(c ssa.CallInstruction) {
+			sc := c.Common().StaticCallee()
+			if sc == nil || sc.Name() != "flush" || len(c.Common().Args) == 0 || !fieldV(man)(c.Common().Args[0]) {
+				return
+			}
+			n++
+			isSync := e.throughHelpers(func(x ssa.CallInstruction) bool {
+				cc := x.Common()
+				return cc.IsInvoke() && cc.Method.Name() == "Sync" && fieldV(mf)(cc.Value)
+			})
+			res := e.findPath(fn, c.(ssa.Instruction), func(in ssa.Instruction) bool { return e.isSuccessReturn(in) }, isSync, nil)
+			r.check(!res.Found, "PAIR-tan-manifest-sync", "manifest edit flushed in "+fname(fn)+" is fsynced before success", e.ipos(c),
+				"a recorded version edit is durable when logAndApply returns",
+				"logAndApply can return success with the manifest edit only flushed, not fsynced: after a power loss the log file it registered is unknown and deleted on open")
+		})
+	}
+	r.floor("PAIR-tan-manifest-sync", n, 1)
+}
+
+// ruleRegisterOnce (C05): registering a client id that is already in the
+// session table must not replace the stored session (history and watermark):
+// on the register path the insertion happens only on the not-found edge of
+// a lookup of that id.
+func ruleRegisterOnce(e *Engine, r *Report) {
+	reg := r.need("(*internal/rsm.SessionManager).RegisterClientID")
+	addL := r.need("(*internal/rsm.lrusession).addSessionLocked")
+	if reg == nil || addL == nil {
+		return
+	}
+	var found VM = func(v ssa.Value) bool {
+		ex, ok := v.(*ssa.Extract)
+		if !ok || ex.Index != 1 {
+			return false
+		}
+		c, ok := ex.Tuple.(*ssa.Call)
+		if !ok {
+			return false
+		}
+		sc := c.Call.StaticCallee()
+		return sc != nil && (sc.Name() == "getSession" || sc.Name() == "getSessionLocked") && fnPkg(sc) == fnPkg(reg)
+	}
+	n := 0
+	for _, fn := range e.regionOf(reg, 2) {
+		for _, s := range e.SitesIn(fn, addL) {
+			n++
+			r.guard("GD-register-once", "session inserted on the register path in "+fname(fn), s.(ssa.Instruction),
+				reqBool("the client id is not registered yet (lookup !ok)", found, false))
+		}
+	}
+	r.floor("GD-register-once", n, 1)
+}
+
+// ruleTanIndexAllNodes (C09): when a Tan log file is retired its index file
+// lists every node known to the db - state and snapshot pointers move
+// without touching entry ranges, so a node without entries in that file
+// still has pointers to persist. In nodeStates.save nothing but an I/O
+// error lets the loop over the nodes skip one.
+func ruleTanIndexAllNodes(e *Engine, r *Report) {
+	sv := r.need("(*internal/tan.nodeStates).save")
+	idx := r.needField("internal/tan", "nodeStates", "indexes")
+	if sv == nil || idx == nil {
+		return
+	}
+	// the count that is written and the nodes that are written both come from s.indexes itself
+	nRanges := 0
+	okAll := true
+	var bad ssa.Instruction
+	forEachInstr(sv, func(in ssa.Instruction) {
+		rg, ok := in.(*ssa.Range)
+		if !ok {
+			return
+		}
+		if !fieldV(idx)(rg.X) {
+			return
+		}
+		nRanges++
+	})
+	// every slice/map the function iterates to write nodes must be s.indexes; a filtered copy loses nodes
+	forEachInstr(sv, func(in ssa.Instruction) {
+		c, ok := in.(*ssa.Call)
+		if !ok {
+			return
+		}
+		if b, isB := c.Call.Value.(*ssa.Builtin); isB && b.Name() == "len" && len(c.Call.Args) == 1 {
+			// len(x) written as the node count: x must be s.indexes
+			if refs := c.Referrers(); refs != nil {
+				for _, ref := range *refs {
+					if cv, isCv := ref.(*ssa.Convert); isCv {
+						if rr := cv.Referrers(); rr != nil {
+							for _, u := range *rr {
+								if cc, isCall := u.(*ssa.Call); isCall {
+									if sc := cc.Call.StaticCallee(); sc != nil && sc.Name() == "writeUvarint" && !fieldV(idx)(c.Call.Args[0]) {
+										okAll = false
+										bad = in
+									}
+								}
+							}
+						}
+					}
+				}
+			}
+		}
+	})
+	pos := e.pos(sv.Pos())
+	if bad != nil {
+		pos = e.ipos(bad)
+	}
+	r.check(okAll && nRanges >= 1, "MPT-tan-index-all-nodes", "nodeStates.save writes the count and the records of all nodes in s.indexes", pos,
+		"every node's pointers are persisted with the retired log file",
+		"nodeStates.save writes a node count taken from something other than s.indexes (a filtered subset): state/snapshot pointers of the omitted nodes are lost on reopen")
+	// within the loop over s.indexes no path skips the node's record except through an error return
+	forEachInstr(sv, func(in ssa.Instruction) {
+		rg, ok := in.(*ssa.Range)
+		if !ok || !fieldV(idx)(rg.X) {
+			return
+		}
+		header, body := rangeLoopBlocks(rg)
+		if header == nil {
+			return
+		}
+		// a write of the node record: a call of Write on the record writer inside the body
+		isWrite := func(x ssa.Instruction) bool {
+			c, ok := x.(ssa.CallInstruction)
+			return ok && c.Common().IsInvoke() && c.Common().Method.Name() == "Write"
+		}
+		hasWrite := false
+		for b := range body {
+			for _, x := range b.Instrs {
+				if isWrite(x) {
+					hasWrite = true
+				}
+			}
+		}
+		if !hasWrite {
+			return // a collecting loop, the writing loop is checked by the count rule
+		}
+		// from the loop body entry, a path back to the header without a Write
+		for _, s := range header.Succs {
+			if !body[s] || len(s.Instrs) == 0 {
+				continue
+			}
+			res := e.findPath(sv, s.Instrs[0], func(x ssa.Instruction) bool { return x.Block() == header }, isWrite, func(p, q *ssa.BasicBlock) bool { return body[q] || q == header })
+			if isWrite(s.Instrs[0]) {
+				res.Found = false
+			}
+			r.check(!res.Found, "MPT-tan-index-all-nodes", "every iteration of the node loop in nodeStates.save writes the node's record", e.ipos(rg),
+				"no node is skipped", "an iteration of the node loop can continue without writing the node's record")
+		}
+	})
+}
+
+// ruleSyncUnconditional (C08, C16): StateMachine.sync makes the on-disk
+// state machine durable whenever it is one: no other condition (such as "the
+// applied index did not move") may skip the user Sync - the cursors it
+// would compare are batch-level and lag behind a mid-task snapshot.
+func ruleSyncUnconditional(e *Engine, r *Report) {
+	sy := r.need("(*internal/rsm.StateMachine).sync")
+	onDisk := r.need("(*internal/rsm.StateMachine).OnDiskStateMachine")
+	syncM := e.Method("internal/rsm", "IManagedStateMachine", "Sync")
+	if sy == nil || onDisk == nil || syncM == nil {
+		return
+	}
+	isSync := e.throughHelpers(func(c ssa.CallInstruction) bool { return e.IsMethodCall(c, syncM) })
+	res := e.pathUnless(sy, nil, func(in ssa.Instruction) bool { return e.isSuccessReturn(in) }, isSync, reqBool("not an on-disk state machine", e.callV(onDisk), false))
+	var w []string
+	for _, x := range res.Witness {
+		w = append(w, e.ipos(x))
+	}
+	r.check(!res.Found, "MPT-sync-unconditional", "StateMachine.sync syncs the on-disk state machine on every path", e.pos(sy.Pos()),
+		"the only way to skip the user Sync is not being an on-disk state machine",
+		"StateMachine.sync can return success without calling the user Sync for an on-disk state machine: a snapshot taken afterwards refers to state that is not durable", w...)
+}
+
+// ruleReadyKeyedByCtx (C01, C06): a ReadyToRead record confirms exactly the
+// batch registered under its own ctx: in pendingReadIndex.addReady every
+// update of the batches table is keyed by the record's SystemCtx, never by
+// a key obtained from iterating the table (batches cut later were not
+// covered by that confirmation).
+func ruleReadyKeyedByCtx(e *Engine, r *Report) {
+	ar := r.need("(*dragonboat.pendingReadIndex).addReady")
+	batches := r.needField("", "pendingReadIndex", "batches")
+	sysCtx := r.needField("raftpb", "ReadyToRead", "SystemCtx")
+	if ar == nil || batches == nil || sysCtx == nil {
+		return
+	}
+	n := 0
+	e.forEachInstrRegion(ar, 1, func(in ssa.Instruction) {
+		mu, ok := in.(*ssa.MapUpdate)
+		if !ok || !fieldV(batches)(mu.Map) {
+			return
+		}
+		n++
+		fromCtx := e.dependsOn(mu.Key, func(v ssa.Value) bool { return fieldV(sysCtx)(v) }, 0)
+		fromRange := e.dependsOn(mu.Key, func(v ssa.Value) bool {
+			rg, ok := v.(*ssa.Range)
+			return ok && fieldV(batches)(rg.X)
+		}, 0)
+		r.check(fromCtx && !fromRange, "WMW-ready-keyed", "batches updated in addReady #"+itoa(n)+" under the confirmed record's ctx", e.ipos(in),
+			"only the confirmed batch receives the read index",
+			"addReady writes the read index into a batch selected by iterating the table, not the batch of the confirmed ctx: batches that were never confirmed are released with it")
+	})
+	r.floor("WMW-ready-keyed", n, 1)
+}
